@@ -67,7 +67,7 @@ def run_control(c):
         env = dict(os.environ)
         env["VERIF_NO_CACHE"] = "0"
         slot = SLOTS.get()
-        env["VERIF_TARGET_DIR"] = os.path.join(VERIF, ".work", "target-ctl-%d" % slot)
+        env["VERIF_TARGET_DIR"] = os.path.join(VERIF, ".work", "target-ctl-%d" % (slot + int(os.environ.get("VERIF_SLOT_BASE", "0"))))
         r = subprocess.run([sys.executable, "-m", "sa.run", c["property"], "--repo", scratch,
                             "--no-evidence", "--tier", "quick"], cwd=VERIF, env=env,
                            capture_output=True, text=True)
